@@ -93,10 +93,21 @@ struct Inv15 {
             long double e = (long double)K / (long double)x; R r = au::inverse_in(T{}, q);
             if (std::isfinite(e) && std::fabs(e) < (long double)std::numeric_limits<R>::max() && std::fabs((long double)r - e) > 4 * std::fabs(e) * (long double)std::numeric_limits<R>::epsilon()) fail(x, "inverse_in off by more than 4 ulp");
             auto r3 = au::inverse_as<double>(T{}, q); (void)r3;
+            // explicit integral target rep on a floating quantity: trunc(K / x) (the division happens before the truncation)
+            if (std::isfinite(e) && std::fabs(e) < 9e18L && std::fabs(e) >= 1) {
+                long double fr = std::fabs(e - std::trunc(e));
+                if (fr > 1e-6L && fr < 1 - 1e-6L) {     // keep clear of results that sit on an integer (rounding of the division could go either way)
+                    st.evals++;
+                    int64_t got = au::inverse_in<int64_t>(T{}, q), got2 = au::inverse_as<int64_t>(T{}, q).in(T{});
+                    // the division is carried out in common_type<int64_t, R> = R: allow 4 ulp of R plus the truncation step
+                    long double tolq = 4 * std::fabs(e) * (long double)std::numeric_limits<R>::epsilon() + 1;
+                    if (std::fabs((long double)got - e) > tolq || got2 != got) fail(x, "inverse_in<int64_t>(target, floating quantity) = " + val_s(got) + " expected trunc(K/x) = " + val_s((int64_t)std::trunc(e)));
+                }
+            }
             uint64_t k = 0; memcpy(&k, &x, sizeof(R) < 8 ? sizeof(R) : 8); dn.add(k);
         }
     }
-    static bool prop(void *self, const uint64_t *d, size_t) { Inv15 *me = static_cast<Inv15 *>(self); uint64_t f0 = me->st.fails; R x = std::is_integral<R>::value ? R(1 + d[0] % (d[1] % 2 ? 100000 : 2000000000)) : R((long double)(int64_t(d[0] % 2000001) - 1000000) / 7); me->check(x); return me->st.fails == f0; }
+    static bool prop(void *self, const uint64_t *d, size_t) { Inv15 *me = static_cast<Inv15 *>(self); uint64_t f0 = me->st.fails; R x = std::is_integral<R>::value ? R(1 + d[0] % (d[1] % 2 ? 100000 : 2000000000)) : R((long double)(int64_t(d[0] % 2000001) - 1000000) / ((d[1] % 3) ? 7 : 16)); me->check(x); return me->st.fails == f0; }
     void run() {
         if (!g_args.want(id)) return;
         if (g_args.one) { check(parse_val<R>(g_args.one_vals.at(0))); printf("AUVONE %s\n", failed ? "fail" : "ok"); return; }
